@@ -1,0 +1,7 @@
+//go:build !verif
+
+package pipeline
+
+func verifGate(_ string, _, _ uint64) {}
+
+func verifTrace(_ string, _, _ uint64) {}
